@@ -35,7 +35,9 @@ fn hll_len_ok_with(ctx: &Ctx, s: &HllSketch, what: &str, n: u64, replay: &dyn Fn
     // slots are used, a set when it is more than 3/4 full at 2^(lg_k-3) slots
     let cap = match st.mode {
         0 => 7,
-        1 => 3 * (1usize << (st.lg_k.max(8) - 3)) / 4,
+        // below lg_k 8 a full list is promoted straight to the register array
+        1 if st.lg_k < 8 => 0,
+        1 => 3 * (1usize << (st.lg_k - 3)) / 4,
         _ => usize::MAX,
     };
     if c > cap {
@@ -79,7 +81,7 @@ fn long_runs(ctx: &Ctx) {
     let measured = AtomicU64::new(0);
     let ss = streams(n, 9001);
     // HLL
-    let lgs: Vec<u8> = ctx.tier.pick(vec![4, 8, 12], vec![4, 8, 12, 21]);
+    let lgs: Vec<u8> = ctx.tier.pick(vec![4, 5, 6, 7, 8, 9, 10, 11, 12], vec![4, 5, 6, 7, 8, 9, 10, 11, 12, 13, 14, 16, 21]);
     let jobs: Vec<(u8, HllType, usize)> = lgs.iter().flat_map(|&l| [HllType::Hll4, HllType::Hll6, HllType::Hll8].into_iter().flat_map(move |t| (0..4usize).map(move |s| (l, t, s)))).collect();
     jobs.par_iter().for_each(|&(lg_k, t, si)| {
         let (name, items) = &ss[si];
@@ -214,7 +216,7 @@ pub fn run(ctx: &Ctx) -> i32 {
         "exhaustive": true,
         "bounds": {
             "observer": "every state of the reduced-bound C02/C03 (union results, all three target types)/C04/C07/C08/C09 explorations; HLL list/set modes additionally bounded by their promotion sizes (7 coupons, 3/4 of 2^(lg_k-3))",
-            "long_runs": format!("4 streams (distinct, 16 repeated, ascending theta hash, ascending HLL value) of 2^{} hashed items: HLL lg_k {{4,8,12{}}} x 3 types, theta lg_k {{5,8,12}} incl. trim, measured at every power-of-two prefix; CPC lg_k 4..={} x 4 seeds at every 1/8-octave prefix (exceedances of max_serialized_bytes counted, must be <= 0.1%)", ctx.tier.pick(18, 22), ctx.tier.pick("", ",21"), ctx.tier.pick(12, 14)),
+            "long_runs": format!("4 streams (distinct, 16 repeated, ascending theta hash, ascending HLL value) of 2^{} hashed items: HLL lg_k {{4..=12{}}} x 3 types, theta lg_k {{5,8,12}} incl. trim, measured at every power-of-two prefix; CPC lg_k 4..={} x 4 seeds at every 1/8-octave prefix (exceedances of max_serialized_bytes counted, must be <= 0.1%)", ctx.tier.pick(18, 22), ctx.tier.pick("", ",13,14,16,21"), ctx.tier.pick(12, 14)),
         },
     });
     ctx.finish(
